@@ -16,7 +16,8 @@ RULE_OWNER = {
     'tree_shape': ['C09'], 'tree_x': ['C09'], 'origin': ['C09'], 'not_rejected': ['C09'],
     'tree_cnt': ['C10'], 'book': ['C10'], 'published': ['C10'], 'hier': ['C10'],
     'invoked': ['C10'], 'exception': ['C10', 'C09'], 'rebuild': ['C10'],
-    'view': ['C07'], 'zview': ['C07', 'C05'], 'seen': ['C05'], 'leaves': ['C09'],
+    # (a stale view is also not 'the committed state' of C04)
+    'view': ['C07', 'C04'], 'zview': ['C07', 'C05', 'C04'], 'seen': ['C05'], 'leaves': ['C09'],
     'update_object': ['C09'],
 }
 
